@@ -167,7 +167,7 @@ def find_witness(prop, pcfg, o, seed):
         if re.search(rp['for'], o.name):
             try:
                 from . import engines
-                w = {'driver': rp['driver'], 'bin': rp.get('bin', 'replay'), 'args': rp.get('args', {}), 'history': rp.get('history', ''), 'target': rp.get('target', 'replay-target')}
+                w = {'driver': rp['driver'], 'bin': rp.get('bin', 'replay'), 'args': rp.get('args', {}), 'history': rp.get('history', ''), 'target': rp.get('target', 'replay-target'), 'features': rp.get('features')}
                 rr = engines.replay_witness(w)
                 w['replayed_on_real_code'] = rr
                 if rr.get('reproduced'):
@@ -248,7 +248,7 @@ def check_property(prop, tier, seed, verbose=False):
                 fr['time_us'] = sum(f['time_us'] for f in tm); fr['rlimit'] = sum(f['rlimit'] for f in tm)
             cover['functions'].append(fr)
             for rname, n in it.rewrites:
-                cover['extraction_rewrites'].append('%s x%d in %s (%s)' % (rname, n, it.qual, (R.RULES[rname].__doc__ or '').strip().split('\n')[0]))
+                cover['extraction_rewrites'].append('%s x%d in %s (%s)' % (rname, n, it.qual, (getattr(ur.asm, 'rule_docs', {}).get(rname) or (R.RULES[rname].__doc__ if rname in R.RULES else '') or '').strip().split('\n')[0]))
         for kw, line, text in ur.assumptions:
             assumptions.append('[%s] %s: %s' % (uc['unit'], kw, text[:200]))
         for s in ur.unit.get('samples', []):
@@ -320,10 +320,26 @@ def check_property(prop, tier, seed, verbose=False):
             if tier != 'thorough' and not rp.get('quick'): continue
             try:
                 from . import engines
-                w = {'driver': rp['driver'], 'bin': rp.get('bin', 'replay'), 'args': rp.get('args', {}), 'history': rp.get('history', ''), 'target': rp.get('target', 'replay-target')}
+                w = {'driver': rp['driver'], 'bin': rp.get('bin', 'replay'), 'args': rp.get('args', {}), 'history': rp.get('history', ''), 'target': rp.get('target', 'replay-target'), 'features': rp.get('features')}
                 rr = engines.replay_witness(w)
                 last = (rr.get('output', '').strip().split('\n') or [''])[-1][:300]
                 cover['bounded'].append({'search': rp['driver'], 'args': rp.get('args', {}), 'result': last, 'hit': bool(rr.get('reproduced'))})
+                # a search may itself pin OPEN known findings (it prints `KNOWN ...` for them and goes on): each such line must be
+                # described by an open entry of known_findings.json (witness_pattern), and is reported as KNOWN-FINDING
+                for kline in [l for l in rr.get('output', '').split('\n') if l.startswith('KNOWN ')]:
+                    k = next((k for k in known if k.get('property') == prop and k.get('status') == 'open' and k.get('witness_pattern')
+                              and re.search(k['obligation'], 'bounded-search:' + rp['driver']) and re.search(k['witness_pattern'], kline)), None)
+                    if k:
+                        if ('KNOWN-FINDING: property=%s %s' % (prop, k['what'])) not in lines:
+                            lines.append('KNOWN-FINDING: property=%s %s' % (prop, k['what']))
+                    else:
+                        lines.append('VIOLATION property=%s replay=%s' % (prop, os.path.join(REPLAYS, '%s-bounded-search.json' % prop)))
+                        lines.append('  obligation: bounded-search:%s reports a hit as known that no open entry of known_findings.json describes: %s' % (rp['driver'], kline[:200]))
+                        os.makedirs(REPLAYS, exist_ok=True)
+                        json.dump({'property': prop, 'obligation': 'bounded-search:%s (unlisted known hit)' % rp['driver'], 'verifier': 'bounded search on the real code',
+                                   'verifier_output': kline, 'failing_input': w}, open(os.path.join(REPLAYS, '%s-bounded-search.json' % prop), 'w'), indent=1, ensure_ascii=False)
+                        violations.append((rp['driver'], None, None)); rc = 1
+                        break
                 if rr.get('reproduced'):
                     # every reported hit is compared with the OPEN known findings (identified by a pattern over the
                     # concrete witness); only hits that no listed finding describes are violations
@@ -347,7 +363,7 @@ def check_property(prop, tier, seed, verbose=False):
                     os.makedirs(REPLAYS, exist_ok=True)
                     path = os.path.join(REPLAYS, '%s-bounded-search.json' % prop)
                     json.dump({'property': prop, 'obligation': 'bounded-search:%s (all contract obligations discharged: the failing input lies outside the functions under contract)' % rp['driver'],
-                               'verifier': 'bounded search on the real code', 'verifier_output': rr.get('output', ''), 'failing_input': w,
+                               'verifier': 'bounded search on the real code', 'verifier_output': rr.get('output', '')[-6000:], 'failing_input': w,
                                'how_to_replay': './check %s --replay %s' % (prop, path)}, open(path, 'w'), indent=1, ensure_ascii=False)
                     lines.append('VIOLATION property=%s replay=%s' % (prop, path))
                     lines.append('  obligation: bounded-search:%s found a failing input outside the functions under contract' % rp['driver'])
@@ -363,7 +379,7 @@ def check_property(prop, tier, seed, verbose=False):
             if not rp.get('on_undecided'): continue
             try:
                 from . import engines
-                w = {'driver': rp['driver'], 'bin': rp.get('bin', 'replay'), 'args': rp.get('args', {}), 'history': rp.get('history', ''), 'target': rp.get('target', 'replay-target')}
+                w = {'driver': rp['driver'], 'bin': rp.get('bin', 'replay'), 'args': rp.get('args', {}), 'history': rp.get('history', ''), 'target': rp.get('target', 'replay-target'), 'features': rp.get('features')}
                 rr = engines.replay_witness(w)
                 w['replayed_on_real_code'] = rr
                 if rr.get('reproduced'):
